@@ -175,10 +175,25 @@ func runC04(c *Check) {
 			for _, in := range b.Instrs {
 				if call, ok := in.(*ssa.Call); ok && builtinCall(call, "append") != nil {
 					if sl, ok := call.Type().Underlying().(*types.Slice); ok {
-						if p, ok := sl.Elem().(*types.Pointer); ok {
-							if n, ok := p.Elem().(*types.Named); ok && n.Obj().Name() == "MsgTx" && derivesFromValue(call.Call.Args[1], getNext) {
-								txAppends = append(txAppends, call)
+						isTxPtr := func(t types.Type) bool {
+							if p, ok := t.(*types.Pointer); ok {
+								if n, ok := p.Elem().(*types.Named); ok && n.Obj().Name() == "MsgTx" {
+									return true
+								}
 							}
+							return false
+						}
+						elemOK := isTxPtr(sl.Elem())
+						// the delivered list as a list of small records holding the tx next to its flags
+						if st, ok := sl.Elem().Underlying().(*types.Struct); ok && !elemOK {
+							for i := 0; i < st.NumFields(); i++ {
+								if isTxPtr(st.Field(i).Type()) {
+									elemOK = true
+								}
+							}
+						}
+						if elemOK && len(call.Call.Args) > 1 && derivesFromValue(call.Call.Args[1], getNext) {
+							txAppends = append(txAppends, call)
 						}
 					}
 				}
